@@ -3,6 +3,7 @@
   Sequential level (every run of calls, reopen included); the crash level — orphans left by an interrupted
   truncation/rotation are removed by Open, nothing collides — is checked by the crash suite's directory monitor.
 -/
+import RaftWal.Generated.Conc
 import RaftWal.Proofs.WalInv2
 import RaftWal.Proofs.CrashCorollaries
 import RaftWal.Proofs.ConcReclaim
@@ -74,5 +75,10 @@ theorem closed_only_by_finalizer (files wants : List Conc.FileId) (muts : List C
     (∃ sid, sid + 1 < s.objs.length ∧ (s.obj sid).fin = .taken ∧ f ∈ (s.obj sid).files ∧ f ∉ (s.obj (sid + 1)).files) ∧
     (s.obj s.cur).fin = .unset :=
   ⟨Conc.closed_only_by_finalizer files wants muts hwf s h f hc, Conc.current_has_no_finalizer files wants muts hwf s h⟩
+
+/-- every reference a call takes on the current state is given back exactly once (read from the source on every run: each
+    `acquireState()` site declares fresh variables and defers the release in the next statement) — the discipline the
+    readers of `Model.Conc` follow and `refcount_exact` / `no_double_close` / the reclaim theorems rest on -/
+theorem every_acquire_is_released_once : Generated.everyAcquireHasDeferredRelease = true := by decide
 
 end RaftWal.C13
